@@ -270,6 +270,18 @@ func (ci *ConstructorInvoker) Invoke(
 	info *ConstructorInfo,
 	resolver DependencyResolver,
 ) (results []reflect.Value, err error) {
+	return ci.InvokeFunc(info, info.Value, resolver)
+}
+
+// InvokeFunc is like Invoke but calls fn, the constructor value that was actually
+// registered. An analysis is shared by all function values with the same code
+// pointer and type (closures, method values, generic instantiations), so the
+// function recorded in info is not necessarily the registered one.
+func (ci *ConstructorInvoker) InvokeFunc(
+	info *ConstructorInfo,
+	fn reflect.Value,
+	resolver DependencyResolver,
+) (results []reflect.Value, err error) {
 	// Handle instance values
 	if !info.IsFunc {
 		// For instances, return the instance value directly
@@ -283,7 +295,7 @@ func (ci *ConstructorInvoker) Invoke(
 	}
 
 	// Call the constructor with panic recovery
-	results, err = ci.invokeWithRecovery(info, args)
+	results, err = ci.invokeWithRecovery(info, fn, args)
 	if err != nil {
 		return nil, err
 	}
@@ -302,7 +314,7 @@ func (ci *ConstructorInvoker) Invoke(
 }
 
 // invokeWithRecovery calls the constructor and recovers from any panics.
-func (ci *ConstructorInvoker) invokeWithRecovery(info *ConstructorInfo, args []reflect.Value) (results []reflect.Value, err error) {
+func (ci *ConstructorInvoker) invokeWithRecovery(info *ConstructorInfo, fn reflect.Value, args []reflect.Value) (results []reflect.Value, err error) {
 	defer func() {
 		if r := recover(); r != nil {
 			err = &PanicError{
@@ -313,7 +325,7 @@ func (ci *ConstructorInvoker) invokeWithRecovery(info *ConstructorInfo, args []r
 		}
 	}()
 
-	results = info.Value.Call(args)
+	results = fn.Call(args)
 	return results, nil
 }
 
